@@ -15,6 +15,9 @@ CFG_THOROUGH = dict(p_bitfield=0.12, bf_in_union=False, depth=5, n_records=(4, 1
 def header_case(chk, i, cfg, n_opts, valgrind_every=0, prop_filter=None):
     rng = chk.rng("hdr", i)
     model = G.Gen(rng, cfg).generate()
+    if max([G.scalar_count(r) for r in model.records] or [0]) > 400000:
+        # objects of hundreds of MiB: the probe transcript would run into gigabytes; such models are not executed
+        return Verdict(HELD, "h%d" % i, obs={"oversized_models_not_executed": 1})
     d = chk.dir("h%d" % i)
     hp = htypes.HeaderProbe(d, model)
     feats = G.features(model)
